@@ -41,19 +41,46 @@ def sig_of(b, rec):
     return s
 
 
+def gateway_determinism(ctx, fresh):
+    """For C06: conflicting routes and multi-backendRef rules, each world configured by 1 + fresh controllers that see the
+    lists of the API in different orders; returns the Deterministic verdicts of TraceGateway and the number of worlds."""
+    core.build_harness(ctx, ["gwx"])
+    hs = [[h[0]] for h in worlds(ctx, "conflict")]
+    if ctx.quick():
+        ctx.rng.shuffle(hs)
+        hs = hs[:1500]
+    hs += walks(ctx, 100 if ctx.quick() else 1500, 4, 3, ctx.seed * 100 + 77)
+    inp = ctx.path("g6", "in.json")
+    out = ctx.path("g6", "trace.ndjson")
+    json.dump(hs, open(inp, "w"))
+    core.run([os.path.join(ctx.bindir, "gwx"), "-in", inp, "-out", out, "-work", ctx.path("g6", "w", "x"), "-par", str(core.NCPU),
+              "-seed", str(ctx.seed), "-fresh", str(fresh)], timeout=3000, env=dict(VERIF_REPO=core.REPO))
+    n = core.count_lines(out)
+    r = core.tlc(ctx, "judge-gw-det", "TraceGateway", None, cfgtext=JUDGE, workers=1, timeout=3000, files={out: "trace.ndjson"}, heap="8g")
+    m = re.findall(r'<<"RESULT", "(.*)">>', r["out"])
+    if r["rc"] != 0 or not m:
+        raise Undecided("trace judgement did not complete:\n" + r["out"][-3000:])
+    res = json.loads(json.loads('"' + m[-1] + '"'))
+    if res["n"] != n:
+        raise Undecided("consumed %d of %d" % (res["n"], n))
+    ctx.trace_events += n
+    recs = {(x["id"], x["step"]): x for x in core.read_ndjson(out)}
+    return [b for b in res["bad"] if b["inv"] == "Deterministic"], recs, hs
+
+
 def run(ctx):
     core.build_harness(ctx, ["gwx"])
     q = ctx.quick()
-    hs = [[h[0]] for h in worlds(ctx, "resolve")] + [[h[0]] for h in worlds(ctx, "listener")]
+    hs = [[h[0]] for h in worlds(ctx, "resolve")] + [[h[0]] for h in worlds(ctx, "listener")] + [[h[0]] for h in worlds(ctx, "conflict")]
     nfac = len(hs)
-    if nfac < 9000:
+    if nfac < 12000:
         raise Undecided("TLC enumerated only %d factor worlds" % nfac)
     for s in range(1 if q else 8):
         hs += walks(ctx, 150 if q else 1500, 4 if q else 6, 3 if q else 4, ctx.seed * 100 + s)
     inp = ctx.path("g", "in.json")
     out = ctx.path("g", "trace.ndjson")
     json.dump(hs, open(inp, "w"))
-    core.run([os.path.join(ctx.bindir, "gwx"), "-in", inp, "-out", out, "-work", ctx.path("g", "w", "x"), "-par", str(core.NCPU)],
+    core.run([os.path.join(ctx.bindir, "gwx"), "-in", inp, "-out", out, "-work", ctx.path("g", "w", "x"), "-par", str(core.NCPU), "-seed", str(ctx.seed)],
              timeout=3000, env=dict(VERIF_REPO=core.REPO))
     n = core.count_lines(out)
     r = core.tlc(ctx, "judge", "TraceGateway", None, cfgtext=JUDGE, workers=1, timeout=3000, files={out: "trace.ndjson"}, heap="8g")
@@ -66,11 +93,11 @@ def run(ctx):
     ctx.trace_events += n
     ctx.traces_validated += len(hs)
     st = res["stat"]
-    if min(st["adm"], st["rej"], st["tcpadm"], st["weighted"]) < 200:
+    if min(st["adm"], st["rej"], st["tcpadm"], st["weighted"]) < 200 or st["conflict"] < 20:
         raise Undecided("too few judged pairs (%s): the run proves nothing" % st)
     recs = {(x["id"], x["step"]): x for x in core.read_ndjson(out)}
     seen = set()
-    for b in sorted(res["bad"], key=lambda b: (b["step"], b["id"], b["inv"])):
+    for b in sorted((b for b in res["bad"] if b["inv"] != "Deterministic"), key=lambda b: (b["step"], b["id"], b["inv"])):
         rec = recs[(b["id"], b["step"])]
         sig = sig_of(b, rec)
         if sig in seen:
@@ -91,7 +118,8 @@ def run(ctx):
                                "namespace {nil, g, r, x} x kind {nil, Gateway, Service} x group {nil, gateway group, other} (1296 worlds); listener factor: "
                                "ns labels x protocol x kinds {empty, HTTPRoute, TCPRoute, other, both, both with group \"\", both with the gateway group} x from "
                                "{no allowedRoutes, no from, Same, All, Selector matchLabels web/db, Selector nil, matchExpressions In/NotIn, both} x route kind "
-                               "x route ns x sectionName {nil, L1, L2, nosuch} (8960 worlds); random walks mutate all "
+                               "x route ns x sectionName {nil, L1, L2, nosuch} (8960 worlds); conflict factor: two routes with the same path / port x kinds x namespaces x hostnames x "
+                               "hostless listener x backendRef lists (4608 worlds); List results come back in a seeded random order; random walks mutate all "
                                "dimensions together, with two routes, two parentRefs, hostless listeners and 6 weighted backendRef lists"),
                         assumptions=["pairs whose route kind does not fit the listener protocol are not judged (the documentation leaves protocol out)",
                                      "namespace labels are fixed within a history (namespaces are not watched)",
